@@ -363,9 +363,14 @@ def finish(prop, tier, seed, t0, acc, coverage, assumptions, module=None):
           f"transitions={cov.get('transitions')} traces={cov.get('traces_validated_against_impl')} "
           f"outcomes={len(acc.outcomes)} caps={dict(acc.caps)} known={len(old)} new={len(new)} "
           f"wall={evidence['wall_s']}s")
-    if crashes or (harness_error and not shown):
+    if (crashes or harness_error) and not shown:
         print(f"HARNESS-ERROR property={prop}: worker crash or non-reproducible violation")
         return 3
+    if crashes:
+        # reproduced violations were printed above: they stand on their own replays; the crashed
+        # shards are reported, not hidden (a divergence of the scripted RNG, for one, means the
+        # code under test answered differently to the same script - itself a sign of hidden state)
+        print(f"NOTE property={prop}: {len(crashes)} shard(s) crashed in addition to the violations above")
     return 1 if new else 0
 
 
